@@ -83,12 +83,17 @@ h_exit_time(size_t idx)
 }
 
 static size_t first_alive;
+static int reap_in_poll;
 
 static int
 h_reap_due(void)
 {
 /* children whose time has come exit now (SIGCHLD) */
 	int n = 0;
+
+	if (reap_in_poll) {
+		return 0;
+	}
 	while (first_alive < hx_nprocs && !hx_procs[first_alive].alive) {
 		first_alive++;
 	}
@@ -103,6 +108,32 @@ h_reap_due(void)
 		ev_feed_signal_event(hctx->loop, SIGCHLD);
 	}
 	return n;
+}
+
+/* the other way for exits to arrive: as a signal while the loop is about to poll (ev_feed_signal() is what libev's
+ * own handler calls), so that the exit is collected in the same iteration as the timers that expired meanwhile and
+ * after them, the way it happens to a daemon that was held up; with h_reap_due() the exit is always seen first */
+static void
+h_poll_hook(void)
+{
+	int n = 0;
+
+	if (!reap_in_poll) {
+		return;
+	}
+	while (first_alive < hx_nprocs && !hx_procs[first_alive].alive) {
+		first_alive++;
+	}
+	for (size_t i = first_alive; i < hx_nprocs; i++) {
+		if (hx_procs[i].alive && h_exit_time(i) <= hx_now + 1e-9) {
+			hx_log("EXIT %zu %d %.6f\n", i, (int)hx_procs[i].pid, hx_now);
+			hx_queue_exit(i, 0);
+			n++;
+		}
+	}
+	if (n) {
+		ev_feed_signal(SIGCHLD);
+	}
 }
 
 static double
@@ -318,6 +349,10 @@ h_script(char *script)
 		} else if (!strcmp(cmd, "stall")) {
 			hx_now += strtod(p, NULL);
 			hx_log("STALL %.6f\n", hx_now);
+		} else if (!strcmp(cmd, "reapmode")) {
+			/* reapmode poll|early */
+			reap_in_poll = !strncmp(p, "poll", 4);
+			hx_poll_hook = h_poll_hook;
 		} else if (!strcmp(cmd, "jump")) {
 			/* jump DT: the wall clock is stepped forward by DT seconds (settimeofday, resume from suspend),
 			 * the monotonic clock is not; to the log this is time that passed without the loop running */
